@@ -158,7 +158,11 @@ pub fn drive(c: &Case) -> Result<Outcome, String> {
 
 /// the C08 oracle on a driven session
 pub fn check(c: &Case, out: &Outcome, eng_known: &dyn Fn(&str) -> bool, info: &mut CaseInfo) -> Result<(), String> {
-    let log = &out.drv.log;
+    check_stream(&c.sender, &out.drv.log, Some(&out.close_pkt), &out.facts, eng_known, info)
+}
+
+/// the C08 oracle on any recorded sender log (also used by C12 for the removal semantics)
+pub fn check_stream(sender: &SenderSpec, log: &[Rec], close_pkt: Option<&[u8]>, facts: &[ObjFacts], eng_known: &dyn Fn(&str) -> bool, info: &mut CaseInfo) -> Result<(), String> {
     let an: Analysis = stream::analyse(log);
     if let Some(e) = an.errors.first() {
         return Err(format!("stream not decodable per RFC: {}", e));
@@ -179,15 +183,17 @@ pub fn check(c: &Case, out: &Outcome, eng_known: &dyn Fn(&str) -> bool, info: &m
             }
         }
     }
-    let cd = crate::rfc::pkt::decode(&out.close_pkt, 0).map_err(|e| format!("close-session packet not decodable: {}", e))?;
-    if !cd.lct.close_session {
-        return Err("read_close_session() output does not carry the close-session flag".into());
-    }
-    if cd.lct.tsi != c.sender.tsi {
-        return Err(format!("close-session packet carries TSI {} instead of {}", cd.lct.tsi, c.sender.tsi));
+    if let Some(close_pkt) = close_pkt {
+        let cd = crate::rfc::pkt::decode(close_pkt, 0).map_err(|e| format!("close-session packet not decodable: {}", e))?;
+        if !cd.lct.close_session {
+            return Err("read_close_session() output does not carry the close-session flag".into());
+        }
+        if cd.lct.tsi != sender.tsi {
+            return Err(format!("close-session packet carries TSI {} instead of {}", cd.lct.tsi, sender.tsi));
+        }
     }
 
-    for f in &out.facts {
+    for f in facts {
         let transfers = an.transfers.get(&f.toi).cloned().unwrap_or_default();
         let wire = an.wire_oti(f.toi, log)?;
         let wire = match wire {
@@ -218,6 +224,11 @@ pub fn check(c: &Case, out: &Outcome, eng_known: &dyn Fn(&str) -> bool, info: &m
         let mtc = f.spec.max_transfer_count.max(1) as usize;
         let mut completed_before = 0usize;
         for (ti, t) in transfers.iter().enumerate() {
+            if let Some(r) = f.removed_at {
+                if t.start_idx > r {
+                    return Err(format!("toi {}: transfer {} started (log #{}) after the object had been removed (log #{})", f.toi, ti + 1, t.start_idx, r));
+                }
+            }
             // was the object removed while this transfer was open?
             let removed_during = match f.removed_at {
                 Some(r) => r > t.start_idx && t.stop_idx.map(|s| r < s).unwrap_or(true),
